@@ -535,6 +535,7 @@ Exec(s, env, st) ==
                     Go(j, acc) == IF j > Len(s.ns) THEN acc ELSE Go(j + 1, Store(acc.env, acc.st, s.ns[j], r.st.lists[r.v.id][j]))
                 IN Go(1, ER(env, r.st))
       [] s.k = "import" -> ImportStmt(s, env, st)
+      [] s.k = "alias" -> ER(env, st)              \* `type T ...` / `export type T ...`: compile-time only
       [] s.k = "class" ->
            LET vis == Visible(env)
                fv == ClassFV(s) \cap DOMAIN vis
@@ -651,6 +652,7 @@ ImportStmt(s, env, st) ==
          IF ~IsOk(s1) THEN ER(env, s1)
          ELSE IF s.form = "mod" THEN
               LET s2 == NewCell(s1, VModule(nm)) IN ER(BindTop(env, nm, LastCell(s2)), s2)
+         ELSE IF s.form = "type" THEN ER(env, s1)  \* `import type T from m`: initialises m, binds no value
          ELSE BindNames(s.names, 1, nm, env, s1)
 
 (* run a multi-module program: mods[entry] is the program, the others are importable *)
